@@ -213,6 +213,8 @@ where
         data: &DefaultProblemData<T>,
         settings: &DefaultSettings<T>,
     ) -> bool {
+        #[cfg(clarabel_verif)]
+        crate::verif::emit(crate::verif::Event::Yield);
         let mut is_success;
 
         if data.P.nnz() == 0 {
@@ -267,6 +269,8 @@ where
         data: &DefaultProblemData<T>,
         settings: &DefaultSettings<T>,
     ) -> bool {
+        #[cfg(clarabel_verif)]
+        crate::verif::emit(crate::verif::Event::Yield);
         self.workx.axpby(-T::one(), &data.q, T::zero()); //workx .= -q
         self.kktsolver.setrhs(&self.workx, &data.b);
         let is_success =
